@@ -16,6 +16,11 @@ import z3
 
 from .interp import MAX_DT, MAX_DT_VALUE
 
+# symbolic constants with one value in proof mode and a scaled-down value in the finite scope
+INVALID_CURSOR = z3.Int("INVALID_CURSOR")
+SPECIAL = {"MAX_DT": (MAX_DT, MAX_DT_VALUE, lambda lo, hi: hi),
+           "INVALID_CURSOR": (INVALID_CURSOR, 2 ** 64 - 1, lambda lo, hi: hi + 1)}
+
 PROVE_MS = int(os.environ.get("CXXVC_PROVE_MS", "20000"))
 REFUTE_MS = int(os.environ.get("CXXVC_REFUTE_MS", "20000"))
 CVC5_BIN = "/usr/bin/cvc5"
@@ -111,7 +116,8 @@ def work(job):
     s.set("timeout", job.get("prove_ms", PROVE_MS))
     for a in asserts:
         s.add(a)
-    s.add(MAX_DT == MAX_DT_VALUE)
+    for nm, (c, real, _) in SPECIAL.items():
+        s.add(c == real)
     r = s.check()
     res["time_s"] = round(time.time() - t0, 4)
     if r == z3.unsat:
@@ -154,7 +160,7 @@ def work(job):
             s2.add(a)
             _free_consts(a, consts, seen)
         for nm, c in consts.items():
-            if c.sort() == z3.IntSort() and nm != "MAX_DT":
+            if c.sort() == z3.IntSort() and nm not in SPECIAL:
                 s2.add(c >= lo_, c <= hi_)
             elif z3.is_array(c):
                 # array contents stay inside the universe as well (values and nested values)
@@ -165,7 +171,8 @@ def work(job):
                         for v in uni:
                             bound(term[v], srt.range())
                 bound(c, c.sort())
-        s2.add(MAX_DT == hi_)
+        for nm, (c, _, scaled) in SPECIAL.items():
+            s2.add(c == scaled(lo_, hi_))
         r2 = s2.check()
         last = r2
         if r2 == z3.sat:
@@ -186,7 +193,11 @@ def cvc5_check(smt2, ms):
     with tempfile.NamedTemporaryFile("w", suffix=".smt2", delete=False) as fh:
         fh.write("(set-logic ALL)\n")
         fh.write("(define-fun MAX_DT_fix () Bool (= MAX_DT %d))\n" % MAX_DT_VALUE if False else "")
-        fh.write(smt2.replace("(check-sat)", "(assert (= MAX_DT %d))\n(check-sat)" % MAX_DT_VALUE))
+        fixes = ""
+        for nm, (c, real, _) in SPECIAL.items():
+            if ("declare-fun %s " % nm) in smt2:
+                fixes += "(assert (= %s %d))\n" % (nm, real)
+        fh.write(smt2.replace("(check-sat)", fixes + "(check-sat)"))
         path = fh.name
     try:
         p = subprocess.run([CVC5_BIN, "--lang=smt2", "--tlimit=%d" % ms, path], capture_output=True, text=True,
